@@ -35,16 +35,7 @@ class Model:
         self.functions = {}     # (file, name) -> FunctionDef  (module-level)
         self.parent = {}
         self.file_of = {}       # id(ast node of FunctionDef/ClassDef) -> file
-        if vocab:
-            pre = []
-            for pkg in PACKAGES:
-                for p in sorted((self.repo / pkg).glob("*.py")):
-                    try:
-                        pre.append(ast.parse(p.read_text()))
-                    except SyntaxError:
-                        pass
-            NZ.REBOUND[0] = NZ.collect_rebound(pre)
-            NZ.REBOUND_SITES[0] = NZ.collect_rebound_sites(pre)
+        parsed = {}
         for pkg in PACKAGES:
             d = self.repo / pkg
             if not d.is_dir():
@@ -53,10 +44,22 @@ class Model:
                 rel = str(p.relative_to(self.repo))
                 src = p.read_text()
                 try:
-                    tree = ast.parse(src, filename=rel)
+                    parsed[rel] = ast.parse(src, filename=rel)
                 except SyntaxError as ex:
                     raise AnalysisError("cannot parse %s: %s" % (rel, ex))
                 self.sources[rel] = src
+        if vocab:
+            # consistent renamings of attributes / methods are undone first (alpha-renaming: always semantics-preserving)
+            try:
+                rl = NZ.undo_renames(parsed, vocab)
+            except RecursionError:
+                rl = []
+            if rl:
+                self.norm_log["<renames>"] = rl
+            NZ.REBOUND[0] = NZ.collect_rebound(list(parsed.values()))
+            NZ.REBOUND_SITES[0] = NZ.collect_rebound_sites(list(parsed.values()))
+        for rel, tree in parsed.items():
+            if True:
                 if vocab:
                     try:
                         log = NZ.normalize_tree(rel, tree, vocab)
